@@ -296,6 +296,11 @@ Proof.
   all: try (unfold stored, get_repo; simpl; rewrite String.eqb_refl; simpl; exists t; exact Hst).
   all: apply stored_set_repo; unfold del_blob, del_sess, put_blob; cbn [r_blobs].
   all: match goal with
+       | Hb : assoc ?e (r_blobs (get_repo ?cc ?rr ?ss)) = Some ?be |- exists _, assoc ?dd (assoc_set ?e (mkB (b_data ?be) _) _) = _ =>
+           (* BlobCreate of content that is there: the same content under a new time *)
+           destruct (string_dec e dd) as [Hd|Hd];
+           [ subst; rewrite assoc_set_same; rewrite Hst in Hb; inversion Hb; subst; simpl; eexists; reflexivity
+           | rewrite assoc_set_other by auto; exists t; exact Hst ]
        | |- exists _, assoc ?dd (assoc_del ?k _) = _ =>
            destruct (string_dec k dd) as [->|Hd]; [congruence|rewrite assoc_del_other by auto; exists t; exact Hst]
        | |- exists _, assoc ?dd (assoc_set (resp_digest ?l) _ _) = _ =>
